@@ -1,0 +1,23 @@
+//go:build verif
+
+package uu
+
+import (
+	"math/rand"
+)
+
+// VerifSetRandomSource replaces the generator behind RandomID with one reading from src,
+// so that verification harnesses can drive RandomID with chosen 63-bit draws.
+// Returned function restores the previous generator.
+// It exists only in builds with the "verif" tag.
+func VerifSetRandomSource(src rand.Source) (restore func()) {
+	randomMutex.Lock()
+	defer randomMutex.Unlock()
+	previous := random
+	random = rand.New(src)
+	return func() {
+		randomMutex.Lock()
+		defer randomMutex.Unlock()
+		random = previous
+	}
+}
